@@ -1,5 +1,6 @@
 import CalVerif.Spec.MetadataEnc
 import CalVerif.Lemmas.BiffStrings
+import CalVerif.Lemmas.Xlsb
 /-! Helper lemmas for Props/C16.lean: little-endian fields, string packing, table look-ups. -/
 open Meta MetaEnc
 open Biff (byte le16 le32)
@@ -300,6 +301,160 @@ theorem encodeGlobals_fuel (recs : List GRec) (tail : Bytes) :
   have h2 : (encodeGlobals recs tail).length ≥ (recs.flatMap GRec.bytes).length + 20 := by
     simp [encodeGlobals, record, Biff.frameRec, Biff.recHdr, Biff.frameConts, bofData]
     omega
+  omega
+
+
+/-! ## xlsb `read_workbook` -/
+
+theorem xlsbVis_lookup (v : SheetVisible) : xlsbVisCode v < 4294967296 ∧ Gen.xlsbVisTable.lookup (xlsbVisCode v) = some v := by
+  cases v <;> decide
+
+theorem wideBytes_length (us : List Nat) : (Xlsb.wideBytes us).length = 4 + 2 * us.length := by
+  simp [Xlsb.wideBytes, Xlsb.le32_length, Xlsb.unitsBytes_length]
+
+/-- **BrtBundleSh round trip** -/
+theorem bundleSh_encode (rels : List (Text × String)) (s : XlsbSheet) (hs : s.ok rels) :
+    bundleSh rels s.payload = .ok (some (s.decoded rels)) := by
+  obtain ⟨h1, h2, h3, h4, h5, target, kind, hl, hk⟩ := hs
+  have hvis := xlsbVis_lookup s.vis
+  unfold bundleSh XlsbSheet.payload encodeBundleSh
+  have hlen : (Xlsb.le32 (xlsbVisCode s.vis) ++ Xlsb.le32 s.tabId ++ Xlsb.wideBytes s.relUnits ++ Xlsb.wideBytes s.nameUnits).length
+      = 16 + 2 * s.relUnits.length + 2 * s.nameUnits.length := by
+    simp [Xlsb.le32_length, wideBytes_length]; omega
+  have hd8 : (Xlsb.le32 (xlsbVisCode s.vis) ++ Xlsb.le32 s.tabId ++ Xlsb.wideBytes s.relUnits ++ Xlsb.wideBytes s.nameUnits).drop 8
+      = Xlsb.le32 s.relUnits.length ++ (Xlsb.unitsBytes s.relUnits ++ Xlsb.wideBytes s.nameUnits) := by
+    rw [List.append_assoc, List.drop_left' (by simp [Xlsb.le32_length])]
+    simp [Xlsb.wideBytes, List.append_assoc]
+  have hrel : u32At (Xlsb.le32 (xlsbVisCode s.vis) ++ Xlsb.le32 s.tabId ++ Xlsb.wideBytes s.relUnits ++ Xlsb.wideBytes s.nameUnits) 8
+      = s.relUnits.length := by
+    unfold u32At; rw [hd8]; exact Xlsb.u32le_le32 _ (by omega) _
+  have hd12 : (Xlsb.le32 (xlsbVisCode s.vis) ++ Xlsb.le32 s.tabId ++ Xlsb.wideBytes s.relUnits ++ Xlsb.wideBytes s.nameUnits).drop 12
+      = Xlsb.unitsBytes s.relUnits ++ Xlsb.wideBytes s.nameUnits := by
+    have : (12 : Nat) = 8 + 4 := rfl
+    rw [this, ← List.drop_drop, hd8, List.drop_left' (Xlsb.le32_length _)]
+  have htake : ((Xlsb.le32 (xlsbVisCode s.vis) ++ Xlsb.le32 s.tabId ++ Xlsb.wideBytes s.relUnits ++ Xlsb.wideBytes s.nameUnits).drop 12).take (s.relUnits.length * 2)
+      = Xlsb.unitsBytes s.relUnits := by
+    rw [hd12, List.take_left' (by rw [Xlsb.unitsBytes_length]; omega)]
+  have hdn : (Xlsb.le32 (xlsbVisCode s.vis) ++ Xlsb.le32 s.tabId ++ Xlsb.wideBytes s.relUnits ++ Xlsb.wideBytes s.nameUnits).drop (12 + s.relUnits.length * 2)
+      = Xlsb.wideBytes s.nameUnits := by
+    rw [← List.drop_drop, hd12, List.drop_left' (by rw [Xlsb.unitsBytes_length]; omega)]
+  have hu : Xlsb.u32le (Xlsb.le32 (xlsbVisCode s.vis) ++ Xlsb.le32 s.tabId ++ Xlsb.wideBytes s.relUnits ++ Xlsb.wideBytes s.nameUnits)
+      = xlsbVisCode s.vis := by
+    rw [List.append_assoc, List.append_assoc]; exact Xlsb.u32le_le32 _ hvis.1 _
+  have hw : wideText (Xlsb.wideBytes s.nameUnits) = .ok (Biff.decodeUtf16 s.nameUnits, 4 + s.nameUnits.length * 2) := by
+    have := Xlsb.wideStr_wideBytes s.nameUnits (by omega) h5 []
+    rw [List.append_nil] at this
+    simp [wideText, this]
+  have hne : ¬ (s.relUnits.length = 0xFFFFFFFF) := by omega
+  have hl12 : ¬ ((Xlsb.le32 (xlsbVisCode s.vis) ++ Xlsb.le32 s.tabId ++ Xlsb.wideBytes s.relUnits ++ Xlsb.wideBytes s.nameUnits).length < 12) := by
+    rw [hlen]; omega
+  have hl12' : ¬ ((Xlsb.le32 (xlsbVisCode s.vis) ++ Xlsb.le32 s.tabId ++ Xlsb.wideBytes s.relUnits ++ Xlsb.wideBytes s.nameUnits).length < 12 + s.relUnits.length * 2) := by
+    rw [hlen]; omega
+  simp only [hl12, if_false, hrel, hne, hl12', htake, Xlsb.units_unitsBytes s.relUnits h4, hl, hu, hvis.2, hk, hdn, hw]
+  have hk' : kindOfPath Gen.xlsbKindTable ('x' :: 'l' :: '/' :: target.toList) = some kind := hk
+  simp [XlsbSheet.decoded, XlsbSheet.pathOf, hl, hk']
+
+theorem fillBuf_nil (p : Bytes) : Xlsb.fillBuf [] p = p := by
+  unfold Xlsb.fillBuf
+  split
+  · rfl
+  · simp
+
+theorem readType_frame (id : Nat) (hid : id < 16384) (p : Bytes) (w : Bool) (l : Nat) (rest : Bytes) :
+    Xlsb.readType (Xlsb.frame id p w l ++ rest) = .ok (id, Xlsb.encLen p.length l ++ (p ++ rest)) := by
+  rw [Xlsb.frame_eq, Xlsb.readType_encId id hid]
+
+theorem fill_frame (p : Bytes) (hp : p.length < 268435456) (l : Nat) (rest : Bytes) :
+    Xlsb.fillBuffer [] (Xlsb.encLen p.length l ++ (p ++ rest)) = .ok (p.length, p, rest) := by
+  rw [Xlsb.fillBuffer_enc [] p hp, fillBuf_nil]
+
+def wrecId : WRec → Nat
+  | .sheet _ _ _ => 0x009C
+  | .wbprop _ _ _ => 0x0099
+  | .other id _ _ _ => id
+
+theorem loop1_step (rels : List (Text × String)) (r : WRec) (hr : r.ok rels) (fuel : Nat) (rest : Bytes) (st : XlsbSt) :
+    xlsbLoop1 rels (fuel + 1) (r.bytes ++ rest) st = xlsbLoop1 rels fuel rest (applyW rels st r) := by
+  unfold xlsbLoop1
+  cases r with
+  | sheet s w l =>
+    obtain ⟨hs, hp⟩ := hr
+    simp only [WRec.bytes]
+    rw [xlsbLoop1With, readType_frame _ (by decide)]
+    simp only [fill_frame _ hp, bundleSh_encode rels s hs]
+    simp [applyW]
+  | wbprop f w l =>
+    have hp : (encodeWbProp f).length < 268435456 := by
+      simp [encodeWbProp, Xlsb.le32_length, wideBytes_length]
+    have hne : (encodeWbProp f).isEmpty = false := by
+      simp [encodeWbProp, Xlsb.le32]
+    have hb : byteAt (encodeWbProp f) 0 % 2 = f % 2 := by
+      simp [encodeWbProp, Xlsb.le32, byteAt]
+    simp only [WRec.bytes]
+    rw [xlsbLoop1With, readType_frame _ (by decide)]
+    simp only [fill_frame _ hp, hne, hb]
+    simp [applyW]
+  | other id p w l =>
+    obtain ⟨h1, h2, h3, h4, h5⟩ := hr
+    simp only [WRec.bytes]
+    rw [xlsbLoop1With, readType_frame _ h1]
+    simp only [h2, h3, h4, if_false, if_true, skipPayload, fill_frame _ h5]
+    simp [applyW]
+
+theorem loop1_recs (rels : List (Text × String)) : ∀ (recs : List WRec), (∀ r ∈ recs, r.ok rels) → ∀ (fuel : Nat) (rest : Bytes) (st : XlsbSt),
+    xlsbLoop1 rels (fuel + recs.length) (recs.flatMap WRec.bytes ++ rest) st = xlsbLoop1 rels fuel rest (recs.foldl (applyW rels) st) := by
+  intro recs
+  induction recs with
+  | nil => intro _ fuel rest st; simp
+  | cons r rs ih =>
+    intro hall fuel rest st
+    have hf : fuel + (r :: rs).length = (fuel + rs.length) + 1 := by simp; omega
+    simp only [List.flatMap_cons, List.append_assoc, List.foldl_cons]
+    rw [hf, loop1_step rels r (hall r (by simp)), ih (fun x hx => hall x (by simp [hx]))]
+
+theorem loop1_encode (rels : List (Text × String)) (recs : List WRec) (hall : ∀ r ∈ recs, r.ok rels)
+    (ew : Bool) (el : Nat) (tail : Bytes) (fuel : Nat) :
+    xlsbLoop1 rels (fuel + recs.length + 1) (encodeWorkbookBin recs ew el tail) {} = .ok (recs.foldl (applyW rels) {}, tail) := by
+  unfold encodeWorkbookBin
+  have hf : fuel + recs.length + 1 = (fuel + 1) + recs.length := by omega
+  rw [hf, loop1_recs rels recs hall]
+  unfold xlsbLoop1
+  rw [xlsbLoop1With, readType_frame _ (by decide)]
+  have := fill_frame [] (by simp) el tail
+  simp only [List.length_nil, List.nil_append] at this
+  simp [skipPayload, this]
+
+theorem foldl_applyW (rels : List (Text × String)) (recs : List WRec) : ∀ (st : XlsbSt),
+    recs.foldl (applyW rels) st =
+      ⟨st.sheets ++ (declaredW recs).map (XlsbSheet.decoded rels),
+       recs.foldl flagStep st.is1904⟩ := by
+  induction recs with
+  | nil => intro st; simp [declaredW]
+  | cons r rs ih =>
+    intro st
+    rw [List.foldl_cons, ih]
+    cases r <;> simp [applyW, declaredW, flagStep, List.append_assoc]
+
+theorem wrec_bytes_length (r : WRec) : 2 ≤ r.bytes.length := by
+  cases r <;> exact Xlsb.frame_length_ge _ _ _ _
+
+theorem encodeWorkbookBin_fuel (recs : List WRec) (ew : Bool) (el : Nat) (tail : Bytes) :
+    ∃ fuel, (encodeWorkbookBin recs ew el tail).length + 1 = fuel + recs.length + 1 := by
+  have h1 : ∀ (rs : List WRec), rs.length ≤ (rs.flatMap WRec.bytes).length := by
+    intro rs
+    induction rs with
+    | nil => simp
+    | cons r rs ih =>
+      have := wrec_bytes_length r
+      simp only [List.flatMap_cons, List.length_append, List.length_cons]; omega
+  refine ⟨(encodeWorkbookBin recs ew el tail).length - recs.length, ?_⟩
+  have := h1 recs
+  have : (encodeWorkbookBin recs ew el tail).length ≥ (recs.flatMap WRec.bytes).length := by
+    simp [encodeWorkbookBin]
+  omega
+
+theorem afterNames_lt (t : Nat) (h : isAfterNames t = true) : t < 16384 ∧ t ≠ 0x016A ∧ t ≠ 0x0027 := by
+  simp only [isAfterNames, Bool.or_eq_true, decide_eq_true_eq] at h
   omega
 
 
